@@ -370,6 +370,14 @@ def helper_trace(b, u, mp_, mm, chunks, asynchronous):
             sunk[0] += len(data)
             super().write(data)
 
+    if (len(chunks) + len(b)) % 2:
+        # a file_factory is the caller's: one whose objects have a length (and are falsy while empty) is as good as any
+        class Sink(Sink):
+            __slots__ = ()
+
+            def __len__(self):
+                return self.file.tell()
+
     ticks = []
 
     def tick():
